@@ -15,7 +15,7 @@ func (propC12) ID() string { return "C12" }
 
 func (propC12) Cases(tier string) int {
 	if tier == "thorough" {
-		return 800000
+		return 400000
 	}
 	return 25000
 }
